@@ -189,6 +189,24 @@ pub fn norm_elem<R: Rng>(rng: &mut R, n: Fq) -> Option<Fq2> {
     }
     None
 }
+/// the pool values whose MONTGOMERY representation is sparse: at least two of its four 64-bit limbs are zero (1 + k 2^192, 2^64 k,
+/// single limbs ...) - the inputs on which limb-wise tests inside inversion (is_one, is_even, comparisons) can go wrong
+pub fn sparse_mont(vals: &[Vec<u8>]) -> Vec<Fq> {
+    let mut v33 = [0u8; 33];
+    v33[0] = 1;
+    let rr = Fq::from_slice(&v33).unwrap();
+    let mut out = Vec::new();
+    for vb in vals {
+        if let Some(v) = Fq::from_slice(vb) {
+            if v.is_zero() { continue; }
+            let m = (v * rr).to_slice();
+            if m.chunks(8).filter(|c| c.iter().all(|x| *x == 0)).count() >= 2 {
+                out.push(v);
+            }
+        }
+    }
+    out
+}
 /// a sixth root of unity of Fq other than +-1: w, w^2, -w, -w^2 (w the primitive cube root of unity)
 pub fn unity_root<R: Rng>(rng: &mut R) -> Fq {
     let three = Fq::one() + Fq::one() + Fq::one();
